@@ -1,0 +1,36 @@
+//go:build verif
+
+// SPDX-License-Identifier: Apache-2.0
+
+package dnssrv
+
+import (
+	"net"
+	"sync"
+
+	"github.com/luraproject/lura/v2/sd"
+)
+
+// Thin wrappers over unexported functions, for the unit-level differential of the
+// verification harness (property C15). Add-only; compiled with -tags verif only.
+
+// VerifC15Normalize exposes normalize.
+func VerifC15Normalize(ws []uint16) []uint16 { return normalize(ws) }
+
+// VerifC15Gcd exposes gcd.
+func VerifC15Gcd(ws []uint16) uint16 { return gcd(ws) }
+
+// VerifC15Compact exposes compact.
+func VerifC15Compact(ws []uint16) []uint16 { return compact(ws) }
+
+// VerifC15Resolve runs subscriber.resolve once on a subscriber that has no refresh goroutine.
+func VerifC15Resolve(name string, lookup func(service, proto, name string) (string, []*net.SRV, error), scheme string) ([]string, error) {
+	s := subscriber{
+		name:   name,
+		cache:  &sd.FixedSubscriber{},
+		mutex:  &sync.RWMutex{},
+		lookup: lookup,
+		scheme: scheme,
+	}
+	return s.resolve()
+}
